@@ -139,6 +139,7 @@ class Loop:
         c = ex.registry[frame.func.qualname]
         n, elem = iteration_model(ex, it)
         frame.env.set(self.index, 0)
+        self._ghost_entry(ex, c, frame)
         self._check_inv(ex, c, frame, "inv_entry", no)
         which = ex.choose(2, f"loop {no}: arbitrary iteration / exit")
         self._havoc(ex, frame)
@@ -222,8 +223,12 @@ class Contract(Contract_):
                  raises=(), modifies=(), loops=None, inline=False,
                  result=None, canaries=None, options=None, joinlists=(),
                  ghost_pre=None, ghost_post=None, spec_module=None,
-                 setup=None, name=None, body=None, cls=None, cm=None):
+                 setup=None, name=None, body=None, cls=None, cm=None, nested=None):
         self.target = target
+        # nested=(enclosing real function, name): the target is a function
+        # defined inside that function; its free variables are looked up among
+        # the contract's parameters (e.g. `self`)
+        self.nested = nested
         self.qualname = qualname_of(target) if not isinstance(target, str) else target
         self.short = name or self.qualname.split(":")[1]
         self.params = params
@@ -302,10 +307,21 @@ class Contract(Contract_):
             env.vars[name] = fresh(ex, schema, name)
         return env
 
+    def target_ast(self):
+        """(AST node, source text, real function that owns the module)"""
+        if self.nested is None:
+            node, src = function_ast(self.target)
+            return node, src, self.target
+        parent, name = self.nested
+        pnode, _ = function_ast(parent)
+        for n in ast.walk(pnode):
+            if isinstance(n, (ast.FunctionDef, ast.AsyncFunctionDef)) and n.name == name and n is not pnode:
+                return n, ast.get_source_segment(function_ast(parent)[1], n) or ast.unparse(n), parent
+        raise OutOfReach(f"no function {name} inside {parent.__qualname__}")
+
     def run_body(self, ex):
         """one path of the function body against this contract"""
-        pyfunc = self.target
-        node, src = function_ast(pyfunc)
+        node, src, pyfunc = self.target_ast()
         ex.target = self.qualname
         ex.target_short = self.short
         inputs = self.make_inputs(ex)
@@ -319,7 +335,11 @@ class Contract(Contract_):
         ex.requires_pc = list(ex.pc)
         old = Obj(object, {k: snapshot(v) for k, v in inputs.vars.items()}, "old")
         ex.old = old
-        func = Func(node, None, self.qualname, sys.modules[pyfunc.__module__],
+        closure = None
+        if self.nested is not None:
+            closure = Env()
+            closure.vars.update(inputs.vars)
+        func = Func(node, closure, self.qualname, sys.modules[pyfunc.__module__],
                     self.cls or _defining_class(pyfunc))
         # argument binding follows the real signature
         a = node.args
@@ -344,13 +364,24 @@ class Contract(Contract_):
         ex.frames.append(frame)
         outcome, value = "return", None
         try:
-            for _ in ex.exec_block(node.body, frame):
+            collect = self.options.get("generator") == "collect"
+            if collect:
+                # the generator as the sequence of its yields: a ghost list
+                # `_yielded` (loop invariants may speak about it)
+                y = fresh(ex, T.List(self.result), "_yielded")
+                ex.assume(y.length == 0)
+                frame.env.vars["_yielded"] = y
+            for yv in ex.exec_block(node.body, frame):
                 if not self.options.get("generator"):
                     raise OutOfReach("generator function verified as a plain one")
                 # option generator: the body is driven to its end, every
                 # `yield` continues (the consumer is unconstrained)
+                if collect:
+                    lib.METHODS[("SymList", "append")](ex, frame.env.lookup("_yielded"), yv)
+            if collect:
+                value = frame.env.lookup("_yielded")
         except _Return as r:
-            value = r.value
+            value = frame.env.lookup("_yielded") if self.options.get("generator") == "collect" else r.value
         except PyRaise as p:
             outcome, value = "raise", p.exc
         finally:
@@ -700,8 +731,7 @@ def verify(contract, report, max_paths=5000, options=None, replay=None,
     import multiprocessing as mp
     import os
     global _JOBS
-    pyfunc = contract.target
-    _, src = function_ast(pyfunc)
+    _, src, pyfunc = contract.target_ast()
     report.function(contract.qualname, src)
     opts = dict(contract.options)
     opts.update(options or {})
